@@ -447,7 +447,7 @@ func ruleR10c(c *Check, li *lockerInfo) {
 }
 
 func ruleR10d(c *Check, li *lockerInfo) {
-	c.Rule("R10d", "the liveness probe returns false for pid <= 0 and counts EPERM as alive; Unlock removes exactly the lock path", 2)
+	c.Rule("R10d", "the liveness probe returns false for pid <= 0, counts EPERM as alive and answers true whenever the null signal was delivered; Unlock removes exactly the lock path", 3)
 	var probe *ssa.Function
 	for _, fn := range c.P.Funcs {
 		if engine.InPackage(fn, "locking") && len(callsNamed(fn, "os.FindProcess")) > 0 {
@@ -484,6 +484,56 @@ func ruleR10d(c *Check, li *lockerInfo) {
 					eperm = true
 				}
 			}
+		}
+		// a process that answers the null signal is alive, whatever else one could find out about it
+		for _, sg := range callsNamed(probe, "(*os.Process).Signal") {
+			errIdx := engine.ErrResultIndex(sg.Common().Signature())
+			nonNil := engine.CutEdgesWhere(func(a engine.Atom) bool {
+				if a.Op != "nonnil" {
+					return false
+				}
+				for _, o := range engine.Origins(a.V) {
+					if call, i := engine.CallOf(o); call == sg && i == errIdx {
+						return true
+					}
+				}
+				return false
+			})
+			bad := ""
+			for _, r := range engine.Returns(probe) {
+				if len(r.Results) != 1 {
+					continue
+				}
+				for _, lf := range engine.PhiLeaves(r.Results[0]) {
+					if k, isK := engine.BoolConst(lf.Val); isK && k {
+						continue
+					}
+					var reach bool
+					if lf.Pred == nil {
+						reach, _ = engine.PathExists(probe, sg, engine.IsInstr(r), engine.PathQuery{CutEdge: nonNil, Shallow: true})
+					} else {
+						// the edge pred -> phi block must itself be takable with err == nil
+						cutIn := false
+						for si, sb := range lf.Pred.Succs {
+							if sb == lf.Phi.Block() && nonNil(lf.Pred, si) {
+								cutIn = true
+							}
+						}
+						if !cutIn {
+							term := lf.Pred.Instrs[len(lf.Pred.Instrs)-1]
+							if lf.Pred == sg.Block() {
+								reach = true
+							} else {
+								reach, _ = engine.PathExists(probe, sg, engine.IsInstr(term), engine.PathQuery{CutEdge: nonNil, Shallow: true})
+							}
+						}
+					}
+					if reach {
+						bad = "after the holder answered the null signal (err == nil) the probe can still answer 'not running' (" + c.P.InstrPos(r) + ")"
+					}
+				}
+			}
+			c.Require(bad == "", "R10d", "signal-answer-means-alive/"+c.P.FuncName(probe), "when Signal(0) returns nil the probe returns true", bad+": a live holder is taken for dead (by a name comparison, say), its lock file is removed and two builds run at once", c.P.InstrPos(sg))
 		}
 		c.Require(okNonPos && eperm, "R10d", "liveness-probe/"+c.P.FuncName(probe), "pid <= 0 is dead; EPERM (another user's live process) is alive", fmt.Sprintf("the liveness probe misjudges (pid<=0 dead: %v, EPERM alive: %v): a live holder's lock could be broken or garbage PIDs keep it forever", okNonPos, eperm), c.P.Pos(probe.Pos()))
 	}
